@@ -16,7 +16,7 @@ void harness(void) {
   in_bytes(in, LEN);
   for (int i = 0; i < LEN; i++) ASSUME(in[i] != 0);
 #ifdef QUOTES
-  { uint8_t q = in_bool() ? '"' : '\''; for (int i = 0; i < LEN; i++) in[i] = q; }
+  for (int i = 0; i < LEN; i++) in[i] = QUOTES; /* concrete cell: the quote character is given by the cell */
 #endif
   memset(out, 0, sizeof(out));
   int64_t r = w_split_args(in, LEN, out, MAXTOK, TOKCAP);
